@@ -125,6 +125,9 @@ func checkC15Listing(c C15Listing, o *vcore.Obs) error {
 	if err := r.RunOnce(ctx, true); err != nil {
 		return fmt.Errorf("receiver RunOnce: %v", err)
 	}
+	if has := r.HasSnapshots(); has != (len(newestOwn) > 0) {
+		return fmt.Errorf("receiver of database %q says HasSnapshots() = %v after its first listing; the bucket holds snapshots of this database for %d instance(s) (names: %v)", c.DB, has, len(newestOwn), b.Names())
+	}
 	go func() { _ = r.Run(ctx) }()
 	got := map[string]string{}
 	deadline := time.Now().Add(10 * time.Second)
